@@ -780,7 +780,8 @@ def run(ck):
     ck.notes += [f'{k} (x{v})' for k, v in notes.items()]
     ck.notes.append(f"start mode of the code under test (probe): {mode}; 'last' = dict(...) keeps only the last CELL block per "
                     "instance name (theorems none_lost_false_lastWins, lastWins_keeps_last_only), 'merge' = every block kept (none_lost)")
-    ck.assumptions += ['lark grammar/lexer, float(), NumPy fancy assignment and the Verilog reader are exercised through generated texts, not modelled',
+    ck.assumptions += ['grammar/lexer of sdf.py: modelled (Model/SdfText.lean, round-trip theorem) and compared with lark on generated, hand-written and mutated texts; that lark implements the grammar as the model reads it is checked there, not proved',
+                       'float(), NumPy fancy assignment and the Verilog reader are exercised through generated texts, not modelled',
                        'the circuit is abstracted to two tables (line feeding a pin; fork line between two pins) exported from the real '
                        'Circuit by structural search (reader/reader_pin, fork names), independent of sdf.py',
                        'several IOPATHs from one input pin to different outputs overwrite each other by design (one delay per line): '
